@@ -99,10 +99,10 @@ def drainLoop : Nat → DM Unit
     if irq &&& u8 SX127X_FSK_IRQ_FIFO_EMPTY = 0 then drainLoop fuel else pure ()
 
 /-- first half of `sx127x_fsk_ook_read_payload_batch` (l.294-328): learn the length.
-    Returns `remaining_fifo`. -/
+    Returns how many FIFO bytes the header took, i.e. how often `remaining_fifo--` ran. -/
 def readPayloadHeader : DM Nat := do
   let h ← getH
-  if h.expected ≠ 0 then pure FIFO_SIZE_FSK else
+  if h.expected ≠ 0 then pure 0 else
   if h.format = SX127X_FIXED then do
     let len ← fskOokReadFixedPacketLength
     modH fun h => { h with expected := len }
@@ -110,8 +110,8 @@ def readPayloadHeader : DM Nat := do
     if af then do
       let _ ← rread REGFIFO
       modH fun h => { h with expected := if h.expected > 0 then h.expected - 1 else h.expected }
-      pure (FIFO_SIZE_FSK - 1)
-    else pure FIFO_SIZE_FSK
+      pure 1
+    else pure 0
   else if h.format = SX127X_VARIABLE then do
     let v ← rread REGFIFO
     modH fun h => { h with expected := v.toUInt16 }
@@ -119,13 +119,14 @@ def readPayloadHeader : DM Nat := do
     if af then do
       let _ ← rread REGFIFO
       modH fun h => { h with expected := if h.expected > 0 then h.expected - 1 else h.expected }
-      pure (FIFO_SIZE_FSK - 2)
-    else pure (FIFO_SIZE_FSK - 1)
+      pure 2
+    else pure 1
   else fail voidReturn
 
 /-- `sx127x_fsk_ook_read_payload_batch` (a `void` function: failure = early `return`) -/
 def fskOokReadPayloadBatch (fuel : Nat) (readBatch : Bool) : DM Unit := do
-  let remaining ← readPayloadHeader
+  let consumed ← readPayloadHeader
+  let remaining : Nat := FIFO_SIZE_FSK - consumed     -- `uint8_t remaining_fifo`
   let h ← getH
   if h.expected = h.received then pure () else
   let batch : Nat := HALF_MAX_FIFO_THRESHOLD - 1
